@@ -15,7 +15,7 @@ Spec == Init /\ [][Next]_T
 Law == MergeLaw(T) /\ ImplLaw(T)
 ListingLaw == (WellFormed(T) /\ Rooted(T)) =>
     LET L == GraphListing(T) n == Cardinality(GraphNodes(T)) IN
-      /\ Len(L) = n + 2 * Cardinality(GraphEdges(T))
+      /\ Len(L) = n + 2 * Cardinality(GraphEdges(T)) + 2 * Len(T) + Cardinality({<<i, j>> \in (1..Len(T)) \X (1..2) : j <= Len(T[i].args)})
       /\ \A i \in 1..(n - 1) : L[i] < L[i + 1]
 NonVacuous == Cardinality({x \in Exprs : WellFormed(x) /\ Rooted(x) /\ Cardinality(GraphEdges(x)) > Len(x)}) > 0
 ASSUME NonVacuous
